@@ -6,7 +6,7 @@ import ast
 from typing import Dict, List, Optional, Set, Tuple
 
 from rules import fwd as R_fwd
-from sa.astutil import assigned_names, call_name, guards_of, names_in, parent_map, u
+from sa.astutil import assigned_names, call_name, guards_of, kwarg, names_in, parent_map, u
 from sa.defuse import ReachingDefs
 from sa.model import AnalysisError, own_calls, own_nodes
 from sa.norm import Normalizer, cmp_norm
@@ -275,6 +275,7 @@ def run(ctx: Ctx):
     _ref_boundary_decision_table(ctx)
     _deprecated_boolean_fix(ctx)
     _dimensionality_flag_and_discovery(ctx)
+    _bare_fix_flag_is_the_documented_tolerance(ctx)
     plumbing(ctx, "S7")
     return dict(
         explanation=(
@@ -753,6 +754,42 @@ def _s6_rest(ctx, rel):
                f"{cname} inserts (sos, eos) = {ins[:2]} when reading a reference but strips {strp[:2]} when writing a "
                f"hypothesis: with symbols configured through the other source the written file keeps them", rel,
                strp[2], sample=dict(inserted=ins[:2], stripped=strp[:2]))
+
+
+def _bare_fix_flag_is_the_documented_tolerance(ctx: Ctx):
+    """S12: `--fix` without a number stands for the documented default tolerance. The option's `const` (what argparse stores for the bare
+    flag) equals the number its help text promises ('defaults to N') and the tolerance the deprecated `fix=True` is normalised to in
+    validate_spect_data_set - with another constant the documented one-frame overshoots are refused (0) or larger defects silently cropped."""
+    import re
+    col, pkg = ctx.col, ctx.pkg
+    f = pkg.func("command_line::get_torch_spect_data_dir_info")
+    rel = f.module.relname
+    calls = [c for c in own_calls(f.node) if isinstance(c.func, ast.Attribute) and c.func.attr == "add_argument" and c.args
+             and isinstance(c.args[0], ast.Constant) and c.args[0].value == "--fix"]
+    if len(calls) != 1:
+        col.undecided(f"{rel}::get_torch_spect_data_dir_info: the --fix option was not found")
+        return
+    c = calls[0]
+    const, help_ = kwarg(c, "const"), kwarg(c, "help")
+    promised = None
+    if help_ is not None:
+        txt = "".join(k.value for k in ast.walk(help_) if isinstance(k, ast.Constant) and isinstance(k.value, str))
+        m = re.search(r"defaults to (\d+)", txt)
+        promised = int(m.group(1)) if m else None
+    v = pkg.func("_datasets::validate_spect_data_set")
+    legacy = None
+    for n in own_nodes(v.node):
+        if isinstance(n, ast.Assign) and isinstance(n.value, ast.IfExp) and isinstance(n.value.body, ast.Constant) and isinstance(n.value.body.value, int) \
+                and isinstance(n.value.orelse, ast.Constant) and n.value.orelse.value is None:
+            legacy = n.value.body.value
+    got = const.value if isinstance(const, ast.Constant) else None
+    wants = {w_ for w_ in (promised, legacy) if w_ is not None}
+    if not wants:
+        col.undecided(f"{rel}::get_torch_spect_data_dir_info: no documented default of --fix found to compare with")
+        return
+    col.ob("G8", "S12", f"{rel}::get_torch_spect_data_dir_info::bare---fix-is-the-documented-tolerance", got is not None and wants == {got},
+           f"the bare flag stores {got!r}; its help text promises {promised!r} and fix=True is normalised to {legacy!r}: the documented small defects are "
+           f"refused (or larger ones repaired) when the flag is given without a number", rel, c.lineno, sample=dict(const=got, help=promised, legacy=legacy))
 
 
 MANIFEST = dict(
